@@ -458,10 +458,14 @@ def replay(o, tree):
     # characters outside the alphabet must be errors - including ones whose upper-casing is several alphabet characters (U+FB06 -> 'ST')
     outside = ["\ufb06", "a\ufb06b", "\u00df", "#", "a_b"]
     jobs += [{"kind": "asm", "sources": [".rad50 \"%s\"\n" % p]} for p in outside]
+    # <n> codes: 0..39 decimal are the alphabet; 40 (octal 50) and beyond are errors, alone and in every position of a group
+    codes_bad = ["<50>", "<50><47>", "<1><50>", "<1><2><50>", "<50>/99/", "<77>", "<100>", "<-1>"]
+    jobs += [{"kind": "asm", "sources": [".rad50 %s\n" % c]} for c in codes_bad]
     res = driver.native(jobs, tree)
     exp = [b"".join(w.to_bytes(2, "little") for w in spec.pack(p)).hex() for p in probes] + [((1 * 40 + 2) * 40 + 39).to_bytes(2, "little").hex(),
                                                                                             b"".join(w.to_bytes(2, "little") for w in spec.pack("ABC") + spec.pack("Z")).hex(),
                                                                                             b"".join(w.to_bytes(2, "little") for w in spec.pack("A") + spec.pack("AB") + spec.pack("Z9")).hex()]
     exp += ["fail"] * len(outside)
+    exp += ["fail"] * len(codes_bad)
     obs = [r.get("code_hex") if r["status"] == "ok" else r["status"] for r in res]
     return dict(jobs=jobs, expected=exp, observed=obs, reproduced=obs != exp)
